@@ -40,6 +40,10 @@ func Run(ops []map[string]any) ([]map[string]any, error) {
 		in.Write(b)
 		in.WriteByte('\n')
 	}
+	// the binary is briefly absent while `lake build` relinks it: wait rather than fail
+	for w := 0; w < 180 && !Available(); w++ {
+		time.Sleep(500 * time.Millisecond)
+	}
 	cmd := exec.Command(Path())
 	cmd.Stdin = &in
 	var stdout, stderr bytes.Buffer
